@@ -9,7 +9,7 @@ EXTENDS Naturals, Sequences, Json, IOUtils, TLC
 TraceLog == ndJsonDeserialize(IOEnv.TRACE)
 VARIABLE l
 
-ReadOnlyOps == {"serialized_size", "serialize", "serialize_small_buffer", "typeof", "isa", "is", "refcount", "int_get_width", "get_int",
+ReadOnlyOps == {"serialized_size", "serialize", "serialize_small_buffer", "serialize_alloc", "serialize_alloc_nosize", "serialize_alloc_moved", "serialized_size_moved", "serialize_moved", "typeof", "isa", "is", "refcount", "int_get_width", "get_int",
                 "bytestring_is_definite", "bytestring_length", "bytestring_handle", "bytestring_chunks",
                 "string_is_definite", "string_length", "string_handle", "string_chunks",
                 "array_size", "array_is_definite", "array_handle", "map_size", "map_is_definite", "map_handle",
